@@ -263,11 +263,17 @@ def _loc_order_chunk(acc, orders):
         w = world.World()
         p = w.mk_provider()
         stored = []
+        c = w.mk_consumer(p)
+        client = c.client('LocalizationService')
         for name in order:
             p.localization_storage.add(*parts[name])
             stored += parts[name]
-        c = w.mk_consumer(p)
-        client = c.client('LocalizationService')
+            # queries between the additions (an answer remembered by the service must not survive the next addition)
+            langs = sorted(client.get_supported_languages().result.Lang)
+            if langs != sorted({t.Lang for t in stored}):
+                acc.violation(f'GetSupportedLanguages/differs/add-order/{">".join(order)}/after-{name}', {'got': langs},
+                              case={'kind': 'loc-order', 'order': list(order)})
+            client.get_localized_texts()
         latest = max(t.Version for t in stored)
         tag = '>'.join(order)
         acc.state(h64(('order', tag)))
